@@ -12,6 +12,13 @@ def sany_all():
         shutil.copy(os.path.join(SPEC, f), wd)
     bad = []
     for f in sorted(mods):
+        if "Apalache" in open(os.path.join(SPEC, f)).read().split("\n====")[0].split("EXTENDS", 1)[-1].split("\n", 1)[0]:
+            # an Apalache module (EXTENDS Apalache: not on TLC's classpath): type-checked by apalache-mc instead
+            p = subprocess.run(["timeout", "300", "apalache-mc", "typecheck", "--out-dir=" + os.path.join(wd, "_apalache-out"), f],
+                               cwd=wd, capture_output=True, text=True)
+            if p.returncode != 0:
+                bad.append((f, (p.stdout + p.stderr)[-1500:]))
+            continue
         p = subprocess.run(["java", "-cp", "/opt/veriftools/tla/tla2tools.jar:/opt/veriftools/tla/CommunityModules-deps.jar",
                             "tla2sany.SANY", f], cwd=wd, capture_output=True, text=True)
         if p.returncode != 0 or "error" in (p.stdout + p.stderr).lower().replace("0 error", ""):
